@@ -32,7 +32,7 @@ fn e<T: Sem>(name: &'static str, props: &'static [&'static str], weight: u32, bu
         name,
         props,
         weight,
-        hooks: Hooks { model: None, foreign: None, zst_elems: false, budget },
+        hooks: Hooks { model: None, foreign: None, zst_elems: false, budget, fixed_size: false },
         gen: gen_plan::<T>,
         exec: execute::<T>,
         show: show_values::<T>,
@@ -43,12 +43,18 @@ fn ez<T: Sem>(name: &'static str, props: &'static [&'static str], weight: u32) -
     x.hooks.zst_elems = true;
     x
 }
+/// wire-modelled types whose encoded size varies with the value
+fn wv<T: Wire>(name: &'static str, props: &'static [&'static str], weight: u32, budget: usize) -> Entry {
+    let mut x = w::<T>(name, props, weight, budget);
+    x.hooks.fixed_size = false;
+    x
+}
 fn w<T: Wire>(name: &'static str, props: &'static [&'static str], weight: u32, budget: usize) -> Entry {
     Entry {
         name,
         props,
         weight,
-        hooks: Hooks { model: Some(T::model), foreign: Some(T::foreign), zst_elems: false, budget },
+        hooks: Hooks { model: Some(T::model), foreign: Some(T::foreign), zst_elems: false, budget, fixed_size: true },
         gen: gen_plan::<T>,
         exec: execute::<T>,
         show: show_values::<T>,
@@ -84,13 +90,13 @@ pub fn catalogue() -> Vec<Entry> {
         e::<usize>("usize", C18, 1, 8),
         e::<isize>("isize", C18, 1, 8),
         w::<bool>("bool", C18, 2, 8),
-        w::<String>("String", C18, 4, 8),
+        wv::<String>("String", C18, 4, 8),
         e::<BigUint>("BigUint", C18, 3, 8),
         e::<ark_ff::BigInt<4>>("BigInt<4>", C18, 2, 8),
         e::<ark_ff::BigInt<1>>("BigInt<1>", C18, 1, 8),
         e::<Option<u64>>("Option<u64>", C18, 2, 8),
         e::<Option<Vec<u16>>>("Option<Vec<u16>>", C18, 2, 8),
-        w::<Option<bool>>("Option<bool>", C18, 1, 8),
+        wv::<Option<bool>>("Option<bool>", C18, 1, 8),
         e::<()>("()", C18, 1, 8),
         e::<(u8,)>("(u8,)", C18, 1, 8),
         e::<(u8, String)>("(u8,String)", C18, 2, 8),
@@ -105,7 +111,7 @@ pub fn catalogue() -> Vec<Entry> {
         e::<[String; 2]>("[String;2]", C18, 1, 8),
         e::<Vec<u8>>("Vec<u8>", C18, 6, 8),
         e::<Vec<u64>>("Vec<u64>", C18, 4, 8),
-        w::<Vec<bool>>("Vec<bool>", C18, 2, 8),
+        wv::<Vec<bool>>("Vec<bool>", C18, 2, 8),
         e::<Vec<String>>("Vec<String>", C18, 3, 8),
         e::<Vec<Vec<u8>>>("Vec<Vec<u8>>", C18, 3, 8),
         e::<Vec<Option<u32>>>("Vec<Option<u32>>", C18, 2, 8),
